@@ -150,6 +150,7 @@ class Stairs:
         new_instance._data = values.to_frame("value")
         new_instance._valid_deltas = False
         new_instance._valid_values = True
+        new_instance._remove_redundant_step_points()
         return new_instance
 
     def _has_na(self) -> bool | np.array:
